@@ -357,11 +357,8 @@ func (self valSorter) Less(i, j int) bool {
 		i2 := self[j].Interface().(fmt.Stringer)
 		return strings.Compare(i1.String(), i2.String()) < 0
 	}
-	if i1, ok := self[i].Interface().(fmt.Stringer); ok {
-		i2 := self[j].Interface().(fmt.Stringer)
-		return strings.Compare(i1.String(), i2.String()) < 0
-	}
-	panic("not supported")
+	// every other kind of key a map can have: numbers by value, anything else by its text
+	return reflectCompare(self[i], self[j])
 }
 
 func (self valSorter) Swap(i, j int) {
